@@ -77,6 +77,9 @@ pub struct Case {
 	/// the sound itself is not advancing when the fault strikes
 	#[serde(default)]
 	pub hold: Hold,
+	/// the sound's handle is dropped (fire and forget) before this callback; the decoder's probe is kept
+	#[serde(default)]
+	pub drop_handle_at: Option<usize>,
 	/// Some(p): the main phase runs under seeded random schedules instead of directed stepping
 	pub sched: Option<f64>,
 }
@@ -174,8 +177,17 @@ fn gen_case(seed: u64, index: u64, tier: Tier) -> Case {
 		seek: if rng.chance(0.3) { Some((rng.usize_below(callbacks), rng.usize_below(len + 2))) } else { None },
 		track_paused: rng.chance(0.15),
 		hold,
+		drop_handle_at: None,
 		sched,
 	};
+	// a fifth of the directed fault cases are fire-and-forget: the handle is dropped early, the error
+	// still has to stop and unload the sound
+	if case.sched.is_none() && !systematic && (case.fail_decode.is_some() || case.fail_seek.is_some()) && rng.chance(0.4) {
+		case.drop_handle_at = Some(rng.usize_below(3));
+		case.ending = Ending::Natural;
+		case.hold = Hold::None;
+		case.seek = None;
+	}
 	// a third of the scheduled cases race the decoder's error report against the audio thread and a
 	// polling handle: a looping sound nobody stops, one failing decode call
 	if case.sched.is_some() && rng.chance(0.35) {
@@ -446,6 +458,10 @@ pub fn run_case(case: &Case) -> CaseResult {
 		if case.hold == (Hold::Paused { at: cb }) && created {
 			world.exec(&Op::Sound { sound: sound_idx, cmd: SoundCmd::Pause(TweenSpec::INSTANT) });
 		}
+		if case.drop_handle_at == Some(cb) && created {
+			world.sounds[sound_idx].handle = None;
+			res.hit("handles_dropped_early");
+		}
 		match case.ending {
 			Ending::Stop { at, fade } if at == cb && created => {
 				world.exec(&Op::Sound {
@@ -552,7 +568,7 @@ pub fn run_case(case: &Case) -> CaseResult {
 			// an error that the decoder has raised stops the sound within two callbacks (unless
 			// its track is paused or gone: then it is not processed at all)
 			if let Some(e) = error_seen_at {
-				if cb >= e + 2 && state != Some(PlaybackState::Stopped) && !case.track_paused && !track_dropped {
+				if cb >= e + 2 && state.is_some() && state != Some(PlaybackState::Stopped) && !case.track_paused && !track_dropped {
 					res.fail(Violation::new(
 						"errors",
 						"not-stopped-after-decode-error",
@@ -654,6 +670,33 @@ pub fn run_case(case: &Case) -> CaseResult {
 		}
 	}
 
+	// ---- an error unloads the sound (its track slot is free again), handle or no handle ----
+	if res.violation.is_none() && created && !manager_dropped && !track_dropped && !case.track_paused && probe.errors.load(Ordering::SeqCst) > 0 {
+		if let Some(w) = world_opt.as_mut() {
+			for _ in 0..3 {
+				let _ = w.callback(case.chunk.max(16), 2);
+			}
+			let n = match w.tracks.get(0).and_then(|t| t.handle.as_ref()) {
+				Some(TrackH::Plain(h)) => Some(h.num_sounds()),
+				_ => None,
+			};
+			if let Some(n) = n {
+				if n != 0 {
+					res.fail(Violation::new(
+						"errors",
+						"not-unloaded-after-decode-error",
+						format!(
+							"the decoder reported an error, faults stopped, the drain and three more callbacks later the sound's track still holds {n} sound(s){}",
+							if case.drop_handle_at.is_some() { " (the sound's handle had been dropped before the fault)" } else { "" }
+						),
+					));
+				} else {
+					res.hit("unloaded_after_error_checked");
+				}
+			}
+		}
+	}
+
 	// ---- error propagation (after the drain: the decoder may have been parked between raising and reporting) ----
 	if res.violation.is_none() && created && !manager_dropped {
 		let world = world_opt.as_mut().unwrap();
@@ -672,7 +715,7 @@ pub fn run_case(case: &Case) -> CaseResult {
 				(None, Some(SoundH::Streaming(h, _))) => h.pop_error(),
 				_ => None,
 			};
-			if popped != first {
+			if popped != first && case.drop_handle_at.is_none() {
 				res.fail(Violation::new("errors", "first-error-not-poppable", format!("the decoder's first error was {first:?}, pop_error() returned {popped:?}")));
 			}
 		}
